@@ -109,16 +109,29 @@ def grid_class(system):
 def build_grid(spec):
     import hcipy
     cd = np.dtype(spec.get('cdtype', 'float64')).newbyteorder(spec.get('cborder') or '=')
+    # physical scale of the coordinates: a power of two (exact), e.g. 2**-20 = a beam of micrometres written in metres
+    cs = 1 if cd.kind == 'i' else 2.0 ** int(spec.get('cscale') or 0)
     if spec['kind'] == 'regular':
         if cd.kind == 'i' or spec.get('cborder') in ('<', '>'):
-            coords = hcipy.RegularCoords(np.array(spec['delta'], dtype=cd), list(spec['dims']), np.array(spec['zero'], dtype=cd))
+            coords = hcipy.RegularCoords(np.array(spec['delta'], dtype=cd) * cs, list(spec['dims']), np.array(spec['zero'], dtype=cd) * cs)
         else:
-            coords = hcipy.RegularCoords(list(spec['delta']), list(spec['dims']), list(spec['zero']))
+            coords = hcipy.RegularCoords([d * cs for d in spec['delta']], list(spec['dims']), [z * cs for z in spec['zero']])
     elif spec['kind'] == 'separated':
-        coords = hcipy.SeparatedCoords([np.array(a, dtype=cd) for a in spec['axes']])
+        coords = hcipy.SeparatedCoords([np.array(a, dtype=cd) * cs for a in spec['axes']])
     else:
-        coords = hcipy.UnstructuredCoords([np.array(a, dtype=cd) for a in spec['axes']])
+        coords = hcipy.UnstructuredCoords([np.array(a, dtype=cd) * cs for a in spec['axes']])
     w = spec.get('weights')
+    if w is not None and w['t'] == 'autox':
+        # explicitly given weights that are a multiple of the automatic ones (quadrature weights, apodised weights, ...):
+        # same shape as the automatic weights and, for factors near one, within any tolerance of them
+        try:
+            with warnings.catch_warnings():
+                warnings.simplefilter('ignore')
+                auto = grid_class('polar' if spec['system'] == 'polar' else 'cartesian')(copy.deepcopy(coords)).weights
+            auto = np.asarray(auto, dtype='float64') * float(w['f'])
+        except Exception:  # noqa  (no automatic weights for this grid: a plain scalar)
+            auto = np.asarray(float(w['f']))
+        w = {'t': 'built', 'v': float(auto) if auto.ndim == 0 else auto.copy()}
     if w is None or w['t'] == 'auto':
         weights = None
     elif w['t'] == 'pyfloat':
@@ -131,13 +144,15 @@ def build_grid(spec):
         weights = with_border(np.array(w['v'], dtype=w['dtype']), w.get('border'))
     elif w['t'] == 'list':
         weights = [float(x) for x in w['v']]
+    elif w['t'] == 'built':
+        weights = w['v']
     else:
         raise MachineryError('weights spec')
     cls = grid_class(spec['system'])
     g = cls(coords, weights)
     if spec.get('reversed'):
         g = g.reversed()        # separated/unstructured: the stored arrays become negative-stride views
-    if w is not None and w['t'] == 'auto':
+    if spec.get('weights') is not None and spec['weights']['t'] == 'auto':
         with warnings.catch_warnings():
             warnings.simplefilter('ignore')
             try:
@@ -296,6 +311,15 @@ def _mod_basis(b, op):
         b.transformation_matrix = scipy.sparse.csc_matrix(m) if b.is_sparse else m
     elif k == 'drop-last':
         b.transformation_matrix = b.transformation_matrix[..., :-1] if b.num_modes > 1 else b.transformation_matrix
+    elif k == 'set-format':
+        # the same matrix in another scipy.sparse storage format, assigned through the public setter (which stores what it
+        # is given; the constructor, append and extend always store CSC).  Dense 2-D bases become sparse this way.
+        T = b.transformation_matrix
+        if not scipy.sparse.issparse(T) and T.ndim != 2:
+            raise TypeError('tensor basis')
+        if not scipy.sparse.issparse(T):
+            T = np.ascontiguousarray(T).astype(T.dtype.newbyteorder('='))
+        b.transformation_matrix = getattr(scipy.sparse, op[1])(T)
     elif k == 'imul':
         T = b.transformation_matrix
         if T.dtype.kind == 'b':
@@ -365,11 +389,13 @@ def build(spec, log=None):
 
 
 GRID_MODS = [['scale', 2.0], ['scale', 0.5], ['scale', -2.0], ['shift', 0.5], ['reverse'], ['weights-array'], ['weights-scalar'],
-             ['weights-none'], ['weights-touch']]
+             ['weights-none'], ['weights-touch'], ['weights-touch'], ['scale', 'odd'], ['scale', 'odd']]
 FIELD_MODS = [['imul'], ['iadd'], ['setitem', 1], ['setslice'], ['astype', 'float32'], ['astype', 'int32'], ['regrid-scaled'],
               ['regrid-reversed'], ['grid-scale'], ['grid-weights']]
 BASIS_MODS = [['append', 1], ['append-field', 2], ['extend', 3, 2], ['extend-basis', 4, 3], ['set-tm', 5, 2], ['drop-last'], ['imul'],
-              ['grid-scale'], ['set-grid']]
+              ['grid-scale'], ['set-grid'], ['set-format', 'csr_matrix'], ['set-format', 'csr_matrix'], ['set-format', 'any']]
+SPARSE_FORMATS = ['csr_matrix', 'csc_matrix', 'coo_matrix', 'bsr_matrix', 'lil_matrix', 'dia_matrix', 'dok_matrix', 'csr_array', 'coo_array',
+                  'csc_array']
 
 
 def gen_mods(rng, what):
@@ -385,6 +411,10 @@ def gen_mods(rng, what):
             op[2] = int(rng.integers(1, 4))
         if op[0] == 'setitem':
             op[1] = int(rng.integers(0, 50))
+        if op[0] == 'set-format' and op[1] == 'any':
+            op[1] = SPARSE_FORMATS[int(rng.integers(0, len(SPARSE_FORMATS)))]
+        if op[0] == 'scale' and op[1] == 'odd':
+            op[1] = [0.7, 1.0 / 3.0, 1.1, 2e-7][int(rng.integers(0, 4))]
         out.append(op)
     return out
 
@@ -458,9 +488,14 @@ def gen_grid(rng, big=False, top_level=False):
                            'v': [float(x) / 8.0 for x in rng.integers(1, 40, size=size)]}
     elif r < 0.85:
         spec['weights'] = {'t': 'list', 'v': [float(x) / 8.0 for x in rng.integers(1, 40, size=size)]}
-    else:
+    elif r < 0.93:
         # automatic weights, materialised before writing (unstructured grids have none: warning + 1)
         spec['weights'] = {'t': 'auto'}
+    else:
+        # explicit weights = factor x the automatic ones
+        spec['weights'] = {'t': 'autox', 'f': AUTOX[int(rng.integers(0, len(AUTOX)))]}
+    if rng.random() < 0.15 and cd != 'int64':
+        spec['cscale'] = int(rng.choice([-20, -30, -40, -14, 10]))
     spec['reversed'] = bool(rng.random() < 0.12)
     spec['cborder'] = gen_border(rng)
     spec['mods'] = gen_mods(rng, 'grid') if top_level else []
@@ -469,6 +504,7 @@ def gen_grid(rng, big=False, top_level=False):
     return spec
 
 
+AUTOX = [0.25, 1.0 + 2.0 ** -30, 1.0 - 2.0 ** -20, 4.0, 1.0, 1.0 + 2.0 ** -52]
 TSHAPES = [[], [], [], [2], [3], [2, 2], [2, 1], [1], [3, 1], [2, 1, 2]]
 
 
@@ -592,6 +628,28 @@ DIRECTED = [
     # round 4: NumPy-scalar weights (asdf stores a plain number: Grid.pyWeights in the model)
     dict(_REG2, weights={'t': 'npfloat', 'v': 2.5}), _f(dict(_SEPR, weights={'t': 'npfloat', 'v': 0.75}), [2]),
     _b(dict(_REG2, weights={'t': 'npfloat', 'v': 1.5}), 'sparse'),
+    # round 5: sparse storage formats assigned through the transformation_matrix setter (D162: CSR written as if CSC)
+    _b(_REG2, 'sparse', mods=[['set-format', 'csr_matrix']]), _b(_UNS2, 'sparse', mods=[['set-format', 'csr_matrix']]),
+    _b(_SEPR, 'sparse', mods=[['set-format', 'csr_matrix']]), _b(_UNS2, 'sparse', nm=4, mods=[['set-format', 'csr_matrix']]),
+    _b(_REG1, 'sparse', nm=4, mods=[['set-format', 'csr_matrix']]), _b(_UNS2, 'sparse', mods=[['set-format', 'bsr_matrix']]),
+    _b(_UNS2, 'sparse', mods=[['set-format', 'coo_matrix']]), _b(_REG2, 'sparse', mods=[['set-format', 'lil_matrix']]),
+    _b(_UNS2, 'sparse', mods=[['set-format', 'dia_matrix']]), _b(_REG2, 'sparse', mods=[['set-format', 'dok_matrix']]),
+    _b(_UNS2, 'sparse', mods=[['set-format', 'csr_array']]), _b(_UNS2, 'dense', mods=[['set-format', 'csr_matrix']]),
+    _b(_REG2, 'dense', mods=[['set-format', 'csc_matrix']]), _b(_UNS2, 'sparse', mods=[['set-format', 'csr_matrix'], ['append', 1]]),
+    _b(_UNS2, 'sparse', dt='float32', mods=[['append', 1], ['set-format', 'csr_matrix']]), _b(_UNS2, 'sparse', mods=[['set-format', 'csc_array']]),
+    # round 5: small physical scales and explicit weights close to the automatic ones (seeded class C16-8: weights dropped
+    # from the dictionary when within a tolerance of the automatic ones), weights cached before an in-place scale()
+    dict(_REG2, cscale=-20, weights={'t': 'autox', 'f': 0.25}), dict(_SEPR, cscale=-20, weights={'t': 'autox', 'f': 0.25}),
+    dict(_SEPR, cscale=-30, weights={'t': 'array', 'dtype': 'float64', 'v': [1.0, 2.0, 3.0, 4.0, 5.0, 6.0]}),
+    dict(_REG2, weights={'t': 'autox', 'f': 1.0 + 2.0 ** -30}), dict(_SEPR, weights={'t': 'autox', 'f': 1.0 - 2.0 ** -20}),
+    dict(_SEPP, weights={'t': 'autox', 'f': 1.0 + 2.0 ** -30}), dict(_REG3, weights={'t': 'autox', 'f': 1.0 + 2.0 ** -52}),
+    dict(_REG2, cscale=-14, weights={'t': 'pyfloat', 'v': 2.0 ** -40}), dict(_REG2, cscale=-30), dict(_SEP3, cscale=-40), dict(_UNS2, cscale=-30),
+    _f(dict(_REG2, cscale=-40), [2]), _b(dict(_UNS2, cscale=-30), 'sparse'), dict(_REG2, mods=[['weights-touch'], ['scale', 0.7]]),
+    dict(_g('regular', delta=[0.02, 0.02], dims=[5, 5], zero=[-0.04, -0.04]), mods=[['weights-touch'], ['scale', 0.7]]),
+    dict(_SEPR, mods=[['weights-touch'], ['scale', 1.0 / 3.0]]), dict(_REG2, mods=[['weights-touch'], ['scale', 2e-7]]),
+    dict(_SEPR, weights={'t': 'autox', 'f': 0.25}, mods=[['scale', 2e-7]]),
+    _f(dict(_SEPR, cscale=-20, weights={'t': 'autox', 'f': 0.25}), [2]), _b(dict(_REG2, cscale=-20, weights={'t': 'autox', 'f': 4.0}), 'sparse'),
+    _f(dict(_REG2, weights={'t': 'autox', 'f': 1.0 + 2.0 ** -30}), []), _b(dict(_SEPR, weights={'t': 'autox', 'f': 1.0 - 2.0 ** -20}), 'dense'),
 ]
 
 
@@ -686,10 +744,15 @@ def snapshot(what, x):
         return (type(x).__name__, _raw(np.asarray(x)), snapshot('grid', x.grid))
     T = x._transformation_matrix
     if x.is_sparse:
-        body = ('sparse', T.format, tuple(T.shape), _raw(T.data), _raw(T.indices), _raw(T.indptr))
+        body = ('sparse', type(T).__name__, T.format, tuple(T.shape), T.dtype.str, T.toarray().tobytes()) + tuple(
+            _raw(getattr(T, a)) for a in _SPARSE_ATTRS.get(T.format, ()))
     else:
         body = ('dense', _raw(T))
     return (body, sorted(x.__dict__), snapshot('grid', x.grid))
+
+
+_SPARSE_ATTRS = {'csc': ('data', 'indices', 'indptr'), 'csr': ('data', 'indices', 'indptr'), 'bsr': ('data', 'indices', 'indptr'),
+                 'coo': ('data', 'row', 'col'), 'dia': ('data', 'offsets')}
 
 
 def arrays_of(what, x):
@@ -706,7 +769,7 @@ def arrays_of(what, x):
     if what == 'field':
         return [np.asarray(x)] + arrays_of('grid', x.grid)
     T = x._transformation_matrix
-    return ([T.data, T.indices, T.indptr] if x.is_sparse else [T]) + arrays_of('grid', x.grid)
+    return ([getattr(T, a) for a in _SPARSE_ATTRS.get(T.format, ())] if x.is_sparse else [T]) + arrays_of('grid', x.grid)
 
 
 def shares_memory(what, x, y):
@@ -789,6 +852,43 @@ def getstate_obs(x):
     flat = np.frombuffer(raw, dtype=dt)
     tag = dt.newbyteorder('=').str.lstrip('<>|=')
     return lay, 'ok shape=[%s] dtype=%s fortran=%s raw=%s' % (','.join(str(int(n)) for n in shape), tag, 'T' if isf else 'F', enc_arr(flat))
+
+
+HOOKS = ('__reduce__', '__reduce_ex__', '__getstate__', '__setstate__', '__getnewargs__', '__getnewargs_ex__', '__copy__', '__deepcopy__')
+
+
+def reduce_obs(what, x):
+    """Which pickling hooks the classes of the object define themselves (not inherited from object / ndarray), and whether
+    the default reduction hands over exactly `__dict__`.  Returns a list of findings (empty = as assumed)."""
+    import hcipy
+    out = []
+    objs = [('grid', grid_of(what, x))] if what != 'grid' else [('grid', x)]
+    if what == 'basis':
+        objs.append(('basis', x))
+    for name, o in objs:
+        if o is None:
+            continue
+        for klass in type(o).__mro__:
+            if klass in (object,):
+                continue
+            own = [h for h in HOOKS if h in vars(klass)]
+            if own:
+                out.append('%s: class %s defines %s' % (name, klass.__name__, ','.join(own)))
+        for proto in range(pickle.HIGHEST_PROTOCOL + 1):
+            try:
+                r = o.__reduce_ex__(proto)
+                state = r[2] if len(r) > 2 else None
+                if not (isinstance(state, dict) and state.keys() == o.__dict__.keys() and all(state[k] is o.__dict__[k] for k in state)):
+                    out.append('%s: __reduce_ex__(%d) state is not __dict__' % (name, proto))
+            except Exception as e:  # noqa
+                out.append('%s: __reduce_ex__(%d) raised %s' % (name, proto, type(e).__name__))
+    if what == 'field':
+        # Field defines __reduce__/__getstate__/__setstate__ (modelled: getState / setState); any further hook is unmodelled
+        extra = [h for h in HOOKS if h not in ('__reduce__', '__getstate__', '__setstate__') and any(
+            h in vars(k) for k in type(x).__mro__ if k.__module__.startswith('hcipy'))]
+        if extra:
+            out.append('field: hcipy defines unmodelled pickling hooks %s' % ','.join(extra))
+    return out
 
 
 def round_trips(spec, tmpdir):
@@ -929,18 +1029,39 @@ def round_trips(spec, tmpdir):
             obs['getstate'] = getstate_obs(x)
             unchanged('__getstate__', 'pickle')
         # pickle in memory, deepcopy
-        for route, fn in (('pickle.dumps/loads', lambda o: pickle.loads(pickle.dumps(o))), ('deepcopy', copy.deepcopy)):
+        # every spelling of the in-memory routes: the default protocol, each explicit protocol 0..HIGHEST, protocol 5 with
+        # out-of-band buffers (PEP 574: what joblib / dask / multiprocessing use), deepcopy, copy.copy
+        def _oob(o):
+            bufs = []
+            data = pickle.dumps(o, protocol=5, buffer_callback=bufs.append)
+            obs['oob_buffers'] = len(bufs)
+            # the receiving side gets copies of the buffers (another process); NumPy only hands out contiguous ones
+            return pickle.loads(data, buffers=[bytearray(b.raw()) for b in bufs])
+
+        routes = [('pickle.dumps/loads', lambda o: pickle.loads(pickle.dumps(o)), True), ('deepcopy', copy.deepcopy, False)]
+        for proto in range(pickle.HIGHEST_PROTOCOL + 1):
+            routes.append(('pickle.dumps(protocol=%d)/loads' % proto, (lambda o, p_=proto: pickle.loads(pickle.dumps(o, protocol=p_))), True))
+        routes.append(('pickle.dumps(protocol=5, buffer_callback)/loads(buffers)', _oob, True))
+        routes.append(('copy.copy', copy.copy, False))
+        for route, fn, separate in routes:
             try:
                 with _NewStyle(spec.get('newstyle')):
                     y = fn(x)
-                if what == 'field' and route != 'deepcopy':
+                if what == 'field' and route == 'pickle.dumps/loads':
                     obs['pickle_back'] = encode(y.to_dict())
                     obs['pickle_flag'] = 'f' if np.isfortran(np.asarray(x)) else 'c'
-                if compare(y, route, 'pickle') and route != 'deepcopy' and shares_memory(what, x, y):
+                if compare(y, route, 'pickle') and separate and shares_memory(what, x, y):
                     fails.append(('aliasing:%s:pickle' % what, '%s shares array memory with the original' % route))
+                obs['inmem_routes'] = obs.get('inmem_routes', 0) + 1
+            except MachineryError:
+                raise
             except Exception as e:  # noqa
                 fails.append(('%s:pickle:%s' % (what, ck), '%s raised %s: %s' % (route, type(e).__name__, str(e)[:100])))
             unchanged(route, 'pickle')
+        # default pickling (an assumption of the model: a pickle holds the object): the classes that define no pickling hooks
+        # must reduce to (copyreg.__newobj__ / copyreg._reconstructor, ..., state) with state == __dict__, for every protocol
+        obs['reduce'] = reduce_obs(what, x)
+        unchanged('__reduce_ex__', 'pickle')
         # files
         for fmt in FORMATS:
             fam = {'asdf': 'asdf', 'fits': 'fits', 'fits.gz': 'fits', 'pkl': 'pickle'}[fmt]
@@ -955,6 +1076,11 @@ def round_trips(spec, tmpdir):
                 o['w'] = ERRMAP.get(type(e).__name__, 'other:' + type(e).__name__)
                 o['w_msg'] = str(e)[:100]
                 unchanged('a refused write_%s(%s)' % (what, fmt), fam)
+                if os.path.exists(fn):
+                    # "whenever it can be written, reading back succeeds": a refused write that leaves a file has written something
+                    o['left'] = True
+                    fails.append(('refused-write-leaves-file:%s:%s:%s' % (what, fam, ck), 'write_%s(%s) raised %s but left a file of %d bytes behind' % (
+                        what, fmt, type(e).__name__, os.path.getsize(fn))))
                 continue
             unchanged('write_%s(%s)' % (what, fmt), fam)
             if fmt == 'fits':
@@ -1269,7 +1395,7 @@ def describe(spec):
     else:
         dims = g['dims'] if g['kind'] == 'regular' else [len(a) for a in g['axes']]
         gd = (g['kind'], g['system'], len(dims), g['cdtype'], g.get('cborder'), (g['weights'] or {'t': 'none'})['t'], bool(g['reversed']),
-              'ragged' if len(set(dims)) > 1 else 'square')
+              'ragged' if len(set(dims)) > 1 else 'square', g.get('cscale') or 0)
     mods = tuple(m[0] for m in spec.get('mods') or [])
     if what == 'grid':
         return (what, mods) + gd
@@ -1289,6 +1415,7 @@ def check_spec(ctx, spec, tmpdir, batch):
     if g is not None:
         ctx.count('grid:%s/%s/%dD' % (g['kind'], g['system'], len(g['dims'] if g['kind'] == 'regular' else g['axes'])))
         ctx.count('weights:' + (g['weights'] or {'t': 'none'})['t'])
+        ctx.count('coordinate-scale:2^%d' % int(g.get('cscale') or 0))
         if is_ragged(g):
             ctx.count('grid:separated-ragged')
         if g['reversed']:
@@ -1328,6 +1455,14 @@ def check_spec(ctx, spec, tmpdir, batch):
                                           'model': 'a grid with an unregistered coordinate system is written but not readable'})
     if 'getstate' in obs:
         ctx.count('getstate-layout:' + obs['getstate'][0])
+    ctx.count('in-memory-routes (pickle protocols 0-5, out-of-band, deepcopy, copy)', obs.get('inmem_routes', 0))
+    if obs.get('oob_buffers'):
+        ctx.count('pickle-out-of-band-buffers', obs['oob_buffers'])
+    for finding in obs.get('reduce') or []:
+        ctx.disagree('C16 default-pickling', {'spec': spec, 'impl': finding,
+                                              'model': 'Grid and ModeBasis define no pickling hooks (a pickle holds __dict__); Field defines __reduce__/__getstate__/__setstate__ only'})
+    if obs.get('reduce') == []:
+        ctx.count('default-pickling-monitored:' + what)
     if 'nogrid_tree' in obs:
         ctx.count('basis-without-grid:sent-to-model')
     for o in obs.get('named', []):
